@@ -54,6 +54,7 @@ ASSUMPTIONS = [
 EXPECTED_PROBES = [
     "several_live_objects", "state_chunked+pointers", "state_chunked-unified", "state_contiguous-after-unify", "step_after_layout_change", "copy_ctor", "class_form",
     "failing_call", "transition_unify_keep_chunked", "transition_unify_full",
+    "stmt_fault_armed", "preemptive_pools", "tasks_interleaved_inside_bodies",
 ]
 
 
